@@ -14,7 +14,7 @@ from pathlib import Path
 from . import tablelib as tl
 from .tlc import make_cfg, run_tlc
 
-VALS = [1, 2, 3, tl.S, tl.E, tl.E, tl.Z]
+VALS = [1, 2, 3, tl.S, tl.E, tl.E, tl.Z, tl.K]
 
 
 def rand_row(rng, maxw=5):
